@@ -327,7 +327,7 @@ def check_C14(nodes, R):
                             if len(exp) <= 1:
                                 return {"what": what, "expected": lab(exp), "got": repr(e)}
         for mod in (search, cachedsearch):
-            for name, value in (("tag", 0), ("tag", 1), ("name", "n0"), ("nosuch", 1)):
+            for name, value in (("tag", 0), ("tag", 1), ("name", "n0"), ("nosuch", 1), ("tag", None), ("nosuch", None)):
                 for maxlevel in (None, 1, 2):
                     adm = R.admitted(start, lambda x: False, maxlevel)
                     exp = [x for x in R.pre(start) if x in adm and hasattr(x, name) and getattr(x, name) == value]
@@ -358,7 +358,29 @@ def run_shape(prop, shape, family, full=True):
     R = Ref(nodes, pfx)
     R.pfx = pfx
     if prop == "C04":
-        return check_C04(nodes, R)
+        bad = check_C04(nodes, R)
+        if bad:
+            return bad
+        # "correct immediately after any mutation": read everything (fills any cache), mutate through the public
+        # API, and compare again with the definitions over the raw links
+        for a in range(len(nodes)):
+            for b in [None] + list(range(len(nodes))):
+                ns = build(shape, cls, pfx)
+                R0 = Ref(ns, pfx)
+                R0.pfx = pfx
+                if check_C04(ns, R0):
+                    continue
+                try:
+                    ns[a].parent = ns[b] if b is not None else None
+                except Exception:
+                    continue
+                R1 = Ref(ns, pfx)
+                R1.pfx = pfx
+                bad = check_C04(ns, R1)
+                if bad:
+                    bad["after"] = "all attributes read, then %s.parent = %s" % (ns[a].name, ns[b].name if b is not None else None)
+                    return bad
+        return None
     if prop == "C05":
         return check_C05(nodes, R)
     if prop == "C06":
